@@ -3,6 +3,8 @@
   (src/pycel/excelcompiler.py, `validate_calcs`; `_CellBase.close_enough`) on the workbook type of the engine model
   (Model/Engine.lean: `Workbook`, `WF`, `Local`, `denote`).
 
+  `Workbook.deps i` is `cell.needed_addresses`: the precedents in formula order, each listed once (`uniqueify`).
+
   What is modelled, line by line:
     * the work-list `to_verify` is a LIFO stack (`list.pop()`): the model keeps it as a list whose HEAD is the top;
       the initial stack is the reversed list of outputs, precedents are pushed in formula order, so the last
